@@ -100,44 +100,46 @@ Proof.
 Qed.
 
 
-(* ---- splitlines over rendered lines -------------------------------------------- *)
-Definition no_lb (l : str) : bool := forallb (fun c => negb (is_linebreak c)) l.
+(* ---- split_lines (LF / CR LF / CR) over rendered lines -------------------------------------------- *)
+From PV Require Import model.TimeRead.
 
-Lemma splitlines_aux_line_lf : forall l rest cur st, no_lb l = true ->
-  splitlines_aux (l ++ 10 :: rest) cur st = (rev cur ++ l) :: splitlines_aux rest [] false.
+Definition no_lb (l : str) : bool := forallb (fun c => negb ((c =? 10) || (c =? 13))) l.
+
+Lemma split_lines_aux_line_lf : forall l rest cur st, no_lb l = true ->
+  split_lines_aux (l ++ 10 :: rest) cur st = (rev cur ++ l) :: split_lines_aux rest [] false.
 Proof.
   induction l as [|c l IH]; intros rest cur st H.
-  - cbn [app splitlines_aux]. change (is_linebreak 10) with true. cbv iota.
+  - cbn [app split_lines_aux]. change (is_lf_cr 10) with true. cbv iota.
     change (10 =? 13) with false. cbv iota. rewrite app_nil_r. reflexivity.
   - cbn [no_lb forallb] in H. apply andb_true_iff in H. destruct H as [Hc Hl].
-    cbn [app splitlines_aux].
-    destruct (is_linebreak c); [discriminate|].
+    cbn [app split_lines_aux]. unfold is_lf_cr.
+    destruct ((c =? 10) || (c =? 13)); [discriminate|].
     rewrite IH by exact Hl. cbn [rev]. rewrite <- app_assoc. reflexivity.
 Qed.
 
-Lemma splitlines_aux_line_crlf : forall l rest cur st, no_lb l = true ->
-  splitlines_aux (l ++ 13 :: 10 :: rest) cur st = (rev cur ++ l) :: splitlines_aux rest [] false.
+Lemma split_lines_aux_line_crlf : forall l rest cur st, no_lb l = true ->
+  split_lines_aux (l ++ 13 :: 10 :: rest) cur st = (rev cur ++ l) :: split_lines_aux rest [] false.
 Proof.
   induction l as [|c l IH]; intros rest cur st H.
-  - cbn [app splitlines_aux]. change (is_linebreak 13) with true. cbv iota.
+  - cbn [app split_lines_aux]. change (is_lf_cr 13) with true. cbv iota.
     change (13 =? 13) with true. cbv iota. rewrite app_nil_r. reflexivity.
   - cbn [no_lb forallb] in H. apply andb_true_iff in H. destruct H as [Hc Hl].
-    cbn [app splitlines_aux].
-    destruct (is_linebreak c); [discriminate|].
+    cbn [app split_lines_aux]. unfold is_lf_cr.
+    destruct ((c =? 10) || (c =? 13)); [discriminate|].
     rewrite IH by exact Hl. cbn [rev]. rewrite <- app_assoc. reflexivity.
 Qed.
 
 Definition nl_of (crlf : bool) : str := if crlf then [13; 10] else [10].
 
 Lemma splitlines_lines : forall crlf ls, forallb no_lb ls = true ->
-  splitlines (flat_map (fun l => l ++ nl_of crlf) ls) = ls.
+  split_lines (flat_map (fun l => l ++ nl_of crlf) ls) = ls.
 Proof.
-  intros crlf ls H. unfold splitlines.
+  intros crlf ls H. unfold split_lines.
   induction ls as [|l ls IH]; [reflexivity|].
   cbn [forallb] in H. apply andb_true_iff in H. destruct H as [Hl Hls].
   cbn [flat_map]. rewrite <- app_assoc. destruct crlf; cbn [nl_of app].
-  - rewrite splitlines_aux_line_crlf by exact Hl. cbn [rev app]. f_equal. apply IH. exact Hls.
-  - rewrite splitlines_aux_line_lf by exact Hl. cbn [rev app]. f_equal. apply IH. exact Hls.
+  - rewrite split_lines_aux_line_crlf by exact Hl. cbn [rev app]. f_equal. apply IH. exact Hls.
+  - rewrite split_lines_aux_line_lf by exact Hl. cbn [rev app]. f_equal. apply IH. exact Hls.
 Qed.
 
 (* ---- split_ch over join ------------------------------------------------------------ *)
